@@ -277,6 +277,30 @@ func RunCheck(opt Options) int {
 			toolErr = append(toolErr, fmt.Sprintf("bounded stand-in %s of %s did not run: %s", u.Bounded, u.Name, firstLine(hr.Text)))
 		}
 	}
+	// a unit whose obligations could not be generated from the current source (the code left the verified subset, a
+	// clause no longer binds) has none of its clauses discharged: unless its bounded stand-in explored it, that is
+	// reported like an obligation no solver decided
+	boundedRan := map[string]bool{}
+	for _, b := range bounded {
+		if b["status"] == "ok" || b["status"] == "violation" {
+			boundedRan[fmt.Sprint(b["unit"])] = true
+		}
+	}
+	for _, u := range units {
+		if (u.Error == "" && len(u.Undecided) == 0) || boundedRan[u.Name] || u.Kind == "lemma" {
+			continue
+		}
+		reason := u.Error
+		if reason == "" {
+			reason = strings.Join(u.Undecided, "; ")
+		}
+		p := filepath.Join(replayDir, sanitize(u.Name)+"__undecided.json")
+		b, _ := json.MarshalIndent(map[string]any{"property": opt.Property, "obligation": u.Name + "#contract", "verdict": "no obligation of this unit's contract could be generated from the current source, so none is discharged; they were discharged on the tree the contracts were written for",
+			"reason": reason, "failing_input": nil}, "", " ")
+		os.WriteFile(p, b, 0644)
+		out = append(out, fmt.Sprintf("VIOLATION property=%s replay=%s no-failing-input-found", opt.Property, p))
+		violations++
+	}
 	boundedGlobal = bounded
 	findingReplaysGlobal = findingReplays
 	for _, l := range out {
